@@ -448,6 +448,85 @@ pub fn gen_stake(r: &mut Rng, w: &mut Wallet, cx: &Ctx) -> Option<Transaction> {
     fix_fee(w, &mut tx, &inputs, cx.mult, 0, change).then_some(tx)
 }
 
+/// ERG mint: real MelPoW proof for the puzzle of (header at the coin's height, coin id)
+pub fn gen_doscmint(r: &mut Rng, w: &mut Wallet, cx: &Ctx, hist: &SmtMapping<Cas, BlockHeight, Header>) -> Option<Transaction> {
+    use tmelcrypt::Hashable;
+    // first input: a MEL coin old enough to have a header in the history
+    let cands: Vec<&WCoin> = cx
+        .coins
+        .iter()
+        .filter(|c| c.cdh.coin_data.denom == Denom::Mel && c.cdh.coin_data.value.0 > 0 && c.cdh.height.0 < cx.height && hist.get(&c.cdh.height).is_some())
+        .collect();
+    if cands.is_empty() {
+        return None;
+    }
+    let first = (*r.pick(&cands)).clone();
+    let inputs = vec![first.clone()];
+    let seed_hdr = hist.get(&first.cdh.height)?;
+    let prev = hist.get(&BlockHeight(cx.height - 1))?;
+    let difficulty = r.range(1, 9) as u32;
+    let tip910 = r.chance(1, 2);
+    // corruptions of the seed: other coin / other height
+    let mut puzzle_coin = first.id;
+    let mut puzzle_hdr = seed_hdr;
+    let mut label_ok = true;
+    match r.below(12) {
+        0 => {
+            puzzle_coin.index = puzzle_coin.index.wrapping_add(1);
+            label_ok = false;
+        }
+        1 => {
+            if let Some(h2) = hist.get(&BlockHeight(cx.height - 1)) {
+                if h2 != seed_hdr {
+                    puzzle_hdr = h2;
+                    label_ok = false;
+                }
+            }
+        }
+        _ => {}
+    }
+    let _ = label_ok;
+    let puzzle = tmelcrypt::hash_keyed(puzzle_hdr.hash(), stdcode::serialize(&puzzle_coin).unwrap());
+    let proof = if tip910 {
+        melpow::Proof::generate(&puzzle, difficulty as usize, melstf::Tip910MelPowHash)
+    } else {
+        melpow::Proof::generate(&puzzle, difficulty as usize, melstf::LegacyMelPowHash)
+    };
+    let mut proof_bytes = proof.to_bytes();
+    let mut claimed = difficulty;
+    match r.below(14) {
+        0 => {
+            let k = r.below(proof_bytes.len() as u64) as usize;
+            proof_bytes[k] ^= 1;
+        }
+        1 => claimed += 1,
+        2 => {
+            proof_bytes.truncate(proof_bytes.len() / 2);
+        }
+        _ => {}
+    }
+    let data = if r.chance(1, 20) { r.bytes(9) } else { stdcode::serialize(&(claimed, proof_bytes)).unwrap() };
+    // reward bound, to place the ERG amount around it
+    let age = cx.height - first.cdh.height.0;
+    let speed = (if tip910 { 100u128 } else { 1 }) * 2u128.pow(difficulty) / age as u128;
+    let reward = melstf::dosc_to_erg(BlockHeight(cx.height), melstf::calculate_reward(speed, prev.dosc_speed, difficulty, tip910));
+    let erg = match r.below(6) {
+        0 => reward + 1,
+        1 => reward,
+        2 => reward.saturating_sub(1),
+        3 => 0,
+        _ => reward / 2,
+    }
+    .min(1 << 120);
+    let mut outs = vec![];
+    if erg > 0 || r.chance(1, 3) {
+        outs.push(out(w.rand_addr(r, cx.height), erg, Denom::Erg));
+    }
+    let (outs, change) = balance(r, w, &inputs, outs, cx.height);
+    let mut tx = assemble(w, TxKind::DoscMint, &inputs, outs, 0, data);
+    fix_fee(w, &mut tx, &inputs, cx.mult, 0, change).then_some(tx)
+}
+
 pub fn gen_faucet(r: &mut Rng, w: &mut Wallet, cx: &Ctx) -> Transaction {
     let n = 1 + r.below(3);
     let denoms = [Denom::Mel, Denom::Mel, Denom::Sym, Denom::Erg, Denom::NewCustom];
